@@ -173,6 +173,8 @@ def tree_attr(interp, tree, name):
 
     if name == "getroot":
         return ModelFn(lambda it, a, k: tree.root, "ElementTree.getroot")
+    if name == "_root":
+        return tree.root
     if name in ("find", "findall", "iter", "findtext"):
         return elem_attr(interp, tree.root, name)
     if name == "write":
